@@ -112,6 +112,104 @@ impl Monitor for ContractMonitor {
     }
 }
 
+/// The contract judged on a complete run of a batch tracker (results of every batch, retrieved by the
+/// submitting thread or by consumer threads): used for the schedule part, where voting threads, store
+/// workers, submitter and consumers interleave.
+pub fn batch_contract(ro: &super::c06::RunOut, bs: &[super::c06::Batch]) -> Result<(), (String, String)> {
+    let bad = |k: &str, w: String| Err((format!("contract/{k}"), w));
+    let mut known: BTreeMap<u64, (u64, usize)> = BTreeMap::new();
+    let mut epochs: BTreeMap<u64, usize> = BTreeMap::new();
+    if ro.obs.len() != bs.len() {
+        return bad("batch-result-sets", format!("{} result sets for {} batches", ro.obs.len(), bs.len()));
+    }
+    for (k, (got, b)) in ro.obs.iter().zip(bs.iter()).enumerate() {
+        let mut scenes_seen: Vec<u64> = vec![];
+        if got.len() != b.len() {
+            return bad("batch-result-count", format!("batch #{k}: {} results for {} scenes", got.len(), b.len()));
+        }
+        // results arrive in any order; the contract is per scene
+        let mut got_sorted = got.clone();
+        got_sorted.sort_by_key(|x| x.0);
+        for (scene, recs) in &got_sorted {
+            if scenes_seen.contains(scene) {
+                return bad("batch-result-count", format!("batch #{k}: two results for scene {scene}"));
+            }
+            scenes_seen.push(*scene);
+            let Some((_, dets)) = b.iter().find(|x| x.0 == *scene) else { return bad("scene-not-echoed", format!("batch #{k}: a result for scene {scene}, which was not submitted")) };
+            let e = epochs.entry(*scene).or_insert(0);
+            *e += 1;
+            let epoch = *e;
+            if recs.len() != dets.len() {
+                return bad("record-count", format!("batch #{k} scene {scene}: {} records for {} detections", recs.len(), dets.len()));
+            }
+            let mut seen: Vec<u64> = vec![];
+            for (i, (r, d)) in recs.iter().zip(dets.iter()).enumerate() {
+                if r.observed != box_r(&d.bbox) {
+                    return bad("observed-box-not-echoed", format!("batch #{k} scene {scene} record {i}"));
+                }
+                if r.custom != d.custom_id {
+                    return bad("custom-id-not-echoed", format!("batch #{k} scene {scene} record {i}: {:?} vs {:?}", r.custom, d.custom_id));
+                }
+                if r.scene != *scene {
+                    return bad("scene-not-echoed", format!("batch #{k} record {i}: scene {} in the result for scene {scene}", r.scene));
+                }
+                if r.epoch != epoch {
+                    return bad("epoch", format!("batch #{k} scene {scene} record {i}: epoch {}, the scene's current epoch is {epoch}", r.epoch));
+                }
+                if seen.contains(&r.id) {
+                    return bad("duplicate-track-id-in-call", format!("batch #{k} scene {scene}: track id {} given to two detections of one call", r.id));
+                }
+                seen.push(r.id);
+                match known.get(&r.id) {
+                    None => {
+                        if r.length != 1 {
+                            return bad("length-of-new-track", format!("batch #{k} scene {scene} record {i}: id {} never issued before but length {}", r.id, r.length));
+                        }
+                    }
+                    Some((sc, len)) => {
+                        if *sc != *scene {
+                            return bad("track-changed-scene", format!("batch #{k} record {i}: id {} was issued in scene {sc} and now appears in scene {scene}", r.id));
+                        }
+                        if r.length == 1 {
+                            return bad("recycled-id", format!("batch #{k} scene {scene} record {i}: id {} was issued before (length {len}) and is now given to a new track", r.id));
+                        }
+                        if r.length != len + 1 {
+                            return bad("length", format!("batch #{k} scene {scene} record {i}: id {} length {} after {len}", r.id, r.length));
+                        }
+                    }
+                }
+                known.insert(r.id, (*scene, r.length));
+            }
+        }
+    }
+    for (s, e) in &epochs {
+        if ro.fin.epochs.get(s) != Some(e) {
+            return bad("epoch-counter", format!("current epoch of scene {s} = {:?} after {e} calls", ro.fin.epochs.get(s)));
+        }
+    }
+    Ok(())
+}
+
+/// schedule part: the contract under every interleaving (within the bound) of voting threads, store workers,
+/// submitter and consumers of the batch trackers
+fn run_schedules(rep: &Report, tier: Tier) {
+    let mut scen = vec![];
+    let slice = tier.pick(2.5f64, 60.0f64);
+    for kind in [Kind::BatchSort, Kind::BatchVisualSort] {
+        // (voting shards, batch variant, discipline, fine granularity, largest deviation bound)
+        let plan: Vec<(usize, usize, usize, bool, usize)> = vec![(2, 3, 0, true, tier.pick(1, 3)), (2, 0, 1, false, tier.pick(2, 4)), (2, 1, 1, false, tier.pick(2, 4))];
+        for (vs, variant, discipline, fine, max_bound) in plan {
+            let mut cfg = TrkCfg::new(kind);
+            cfg.shards = 1;
+            cfg.voting_shards = vs;
+            cfg.max_idle = 2;
+            let bs = super::c06::batches(variant);
+            scen.push(super::c06::explore_batch(rep, "contract", &cfg, variant, discipline, fine, max_bound, slice, &|o| batch_contract(o, &bs)));
+        }
+    }
+    rep.extra("schedule_part", json!(scen));
+}
+
 pub fn configs(tier: Tier) -> Vec<TrkCfg> {
     let mut v = vec![];
     for kind in Kind::all() {
@@ -136,8 +234,8 @@ pub fn configs(tier: Tier) -> Vec<TrkCfg> {
 pub fn run(tier: Tier) -> Report {
     let rep = Report::new("C01", tier);
     let ls = lists();
-    rep.set_rule("every history of depth <= D (quick 3, thorough 4) over {predict(scene in {0,7}, one of 9 detection lists incl. empty, exact duplicates, nested, rotated, low confidence, custom ids, features), skip(scene,1)} on a fresh tracker, for Sort / BatchSort / VisualSort / BatchVisualSort x IoU(0.3) / Mahalanobis x shards 1,2 x (history, max_idle) variants; per call: one record per detection in order echoing box / custom id / scene, scene epoch, ids distinct within the call, length 1 exactly for never-issued ids and previous+1 otherwise, stored track agrees with the record. Non-trivial = history with at least one call of >= 2 detections.");
-    rep.assume("sequential use; runs inside the shuttle runtime under the default schedule");
+    rep.set_rule("every history of depth <= D (quick 3, thorough 4) over {predict(scene in {0,7}, one of 9 detection lists incl. empty, exact duplicates, nested, rotated, low confidence, custom ids, features), skip(scene,1)} on a fresh tracker, for Sort / BatchSort / VisualSort / BatchVisualSort x IoU(0.3) / Mahalanobis x shards 1,2 x (history, max_idle) variants; per call: one record per detection in order echoing box / custom id / scene, scene epoch, ids distinct within the call, length 1 exactly for never-issued ids and previous+1 otherwise, stored track agrees with the record. Schedule part (batch trackers, 2 voting threads): the same contract on every complete run of 2-3 multi-scene batches under every interleaving of voting threads, store workers, submitter and consumer threads within a deviation bound (every synchronisation operation a decision point for the two-scene batch that starts two tracks at once; named points for the pipelined consumer-thread runs); a panic, deadlock or step-cap hit is a violation. Non-trivial = history with at least one call of >= 2 detections.");
+    rep.assume("history part: sequential use under the default schedule; schedule part: bounded departures from the default schedule (see schedule_part)");
     let depth = tier.pick(3usize, 4usize);
     let mut total_h = 0u64;
     let mut total_s = 0u64;
@@ -167,6 +265,7 @@ pub fn run(tier: Tier) -> Report {
         total_s += st.steps;
     }
     rep.add(total_h, total_s, total_h, 0);
+    run_schedules(&rep, tier);
     rep.distinct_count(nontrivial);
     rep.extra("histories", json!(total_h));
     rep.extra("calls_checked", json!(total_s));
